@@ -589,9 +589,9 @@ pub fn drain_probe<const L: usize>(book: &mut OrderBook<L>, m: &mut RefModel) ->
     let n0 = book.get_trades().len();
     let m0 = m.trades.len();
     for bid in [true, false] {
-        let t = book.get_time() + 1;
+        let t = book.get_time().saturating_add(1);
         book.set_time(t);
-        m.set_time(m.t + 1);
+        m.set_time(m.t.saturating_add(1));
         // the probe itself stays inside the validity clause: the traded-volume counter restarts per sweep
         book.reset_trade_vol();
         m.reset_trade_vol();
